@@ -296,6 +296,14 @@ Theorem C10_wiring_enums : forall db p,
 Proof. exact enums_correct. Qed.
 Print Assumptions C10_wiring_enums.
 
+(** ... and that specification IS C11's model of the enum String() (Gen/Api.v [enum_string] of the signal's API record, the
+    function the C11 theorems and its reflective correspondence run are about); moreover [wiring_ok_c10] demands that the
+    struct field of such a signal is declared with the enum type NAME <Msg>_<Sig> ([enum_fields_ok]) *)
+Theorem C10_wiring_enums_is_api_model : forall hp m s v,
+  has_custom_type s = true -> enum_string_spec m s v = Api.enum_string (signal_api_with hp m s) v.
+Proof. exact enum_string_spec_is_api. Qed.
+Print Assumptions C10_wiring_enums_is_api_model.
+
 (** non-vacuity: Reset, the five setters and getters of the example message as harness/genwire prints them; a setter that
     converts before saturating (cin = int16 instead of int64) is refused *)
 Definition w_unmarshal_rejects : list nustmt := [NReject (RcNe HId HId); NReject (RcNe HLen HLen); NReject RcRemote; NReject (RcNe HExt HExt)].
